@@ -189,6 +189,7 @@ def judgeIe (A B : Operand) (rhs : Tok) : String :=
   let cls := s!"areas-{kindName A}.{kindName B}-{configOf A B}"
   match rhs with
   | "panic" :: m => s!"SPEC {cls} panic {" ".intercalate m}"
+  | "mutated" :: m => s!"SPEC {cls} an-operand-was-modified-by-the-call {" ".intercalate m}"
   | ["ok", a, b, i, u, d, x] =>
     match [a, b, i, u, d, x].mapM parseU64 with
     | some [a, b, i, u, d, x] =>
